@@ -480,7 +480,15 @@ class CallsMixin:
         return PyObj('enumerate', seq=args[0])
 
     def b_reversed(self, args, kwargs, node):
-        raise Unsupported('reversed')
+        """reversed(list): the list read back to front (element j is element len-1-j of the argument)."""
+        src = args[0]
+        if isinstance(src, PyObj) and src.tag == 'emptylist':
+            return src
+        if not isinstance(src.kind, K.Seq):
+            raise Unsupported('reversed of %r' % (src.kind,))
+        n = K.seq_len(src)
+        j = z3.Int('rev!j')
+        return V(src.kind, [n] + [z3.Lambda([j], z3.Select(a, n - 1 - j)) for a in src.terms[1:]])
 
     def b_sorted(self, args, kwargs, node):
         """sorted(set-or-list, key=lambda, reverse=const): a fresh list that is a duplicate-free enumeration of a
@@ -1006,6 +1014,19 @@ class CallsMixin:
             return K.empty_set(kind.elem)       # e.g. a set-valued field reset with []
         if pyobj.tag == 'emptydict' and isinstance(kind, K.Rec):
             return V(kind, [t for f in kind.fields for t in [z3.BoolVal(False)] + kind.fields[f].default_terms()])
+        if pyobj.tag == 'pydict' and isinstance(kind, K.Rec):
+            # a record literal holding empty containers: each value takes the declared kind of its key
+            given = {}
+            for kn, vn in zip(pyobj.node.keys, pyobj.node.values):
+                if kn.value not in kind.fields:
+                    raise Unsupported('record key %r not declared in %r' % (kn.value, kind))
+                v = self.eval(vn)
+                fk = kind.fields[kn.value]
+                given[kn.value] = self.empty_of(fk, v) if isinstance(v, PyObj) else K.coerce(v, fk)
+            terms = []
+            for f, fk in kind.fields.items():
+                terms += ([z3.BoolVal(True)] + given[f].terms) if f in given else ([z3.BoolVal(False)] + fk.default_terms())
+            return V(kind, terms)
         if isinstance(kind, K.Opt):
             return K.opt_some(self.empty_of(kind.inner, pyobj))
         raise Unsupported('empty %s for %r' % (pyobj.tag, kind))
@@ -1322,11 +1343,24 @@ class CallsMixin:
         sub.env = dict(bound)
         sub.depth = self.depth + 1
         self.p.inlined.add(c.name)
+        result = K.NONE
         try:
             sub.exec_block(ex.node.body)
         except Return_ as r:
-            return r.value
-        return K.NONE
+            result = r.value
+        # value-semantic containers the callee mutates in place are written back to the caller's argument expression
+        inout = getattr(c, 'inout', ())
+        if inout and node is not None:
+            names = list(c.params)
+            off = len(names) - len(node.args) if not node.keywords else None
+            for nm in inout:
+                if off is None:
+                    raise Unsupported('inout parameter with keyword arguments')
+                j = names.index(nm) - off
+                if j < 0 or j >= len(node.args):
+                    raise Unsupported('inout parameter %s not passed positionally' % nm)
+                self.assign_to(node.args[j], sub.env[nm], node)
+        return result
 
 
 _expr_cache, _stmt_cache = {}, {}
